@@ -1043,6 +1043,80 @@ def check_results_matches_contract(root=True):
     return c
 
 
+def _cr_offset_region(fnode):
+    """from `to_change = []` to the statement before the loop over the rank's functions (`for i in range(len(all_fun))`)"""
+    a = b = None
+    for k, s in enumerate(fnode.body):
+        if a is None and isinstance(s, _ast.Assign) and getattr(s.targets[0], "id", None) == "to_change" and isinstance(s.value, _ast.List) and not s.value.elts:
+            a = k
+        if a is not None and isinstance(s, _ast.For) and any(isinstance(c, _ast.Call) and getattr(c.func, "attr", None) == "append" and getattr(c.func.value, "id", None) == "to_change"
+                                                             for c in _ast.walk(s)):
+            b = k
+            break
+    return fnode.body[a:b] if a is not None and b is not None and b > a else None
+
+
+def check_results_offset_contract():
+    """What a rank adds to its local index when it reports a function whose map failed the re-substitution test: the rank's functions are the positions
+    LO(rank) .. LO(rank+1)-1 of the shuffled list (hand-out contract), so the offset has to be LO(rank) whenever the rank holds a function at all --
+    otherwise rank 0 un-merges (and empties the map row of) another function than the one that failed."""
+    NF = z3.Int("nfun")
+
+    def m_split_idx(eng, st, args, kwargs, node):
+        n, r, p = args
+        eng.oblige(st, "split_idx is called for (nfun, rank, size)", z3.And(eng.as_int(n) == NF, eng.as_int(r) == R, eng.as_int(p) == P), "spmd", node)
+        ne = LO(R) < LO(R + 1)
+        return st.alloc(HSeq(z3.If(ne, 2, 0), lambda k: VInt(z3.If(k == 0, LO(R), LO(R + 1) - 1)), etype=T.int))
+
+    def setup(eng, st, args):
+        st.env["rank"], st.env["size"] = VInt(R), VInt(P)
+        eng.models["utils.split_idx"] = m_split_idx
+        eng.axioms += _lo_axioms(NF)
+
+    def ensures(S, a, res):
+        v = S.var("imin")
+        if not isinstance(v, VInt):
+            return [("imin is an integer before the loop", z3.BoolVal(False))]
+        return [("a rank that holds functions reports them with the offset of its slice: imin = LO(rank)", z3.Implies(LO(R) < LO(R + 1), v.t == LO(R)))]
+
+    c = Contract("check_results", {"nfun": lambda e, s: VInt(NF),
+                                   "all_fun": lambda e, s: s.alloc(HSeq(LENF(R), lambda c_: VLabel(SF(LO(R) + c_)), etype=T.label)),
+                                   "inv_subs": lambda e, s: s.alloc(HSeq(LENF(R), lambda c_: VFn(SIV(LO(R) + c_)), etype=T.fn))},
+                 requires=lambda S, a: [("0 <= rank < size, nfun >= 0", z3.And(0 <= R, R < P, NF >= 0))], ensures=ensures, setup=setup, region=_cr_offset_region,
+                 raises=lambda S, a, e: z3.BoolVal(False))
+    c.region_name = "offset of the reported indices"
+    return c
+
+
+def check_results_report_obligations(fnode):
+    """Structural companion of the offset contract: inside the loop over the rank's functions every record appended to `to_change` is
+    `[<loop index> + imin, all_fun[<loop index>]]`, and on the root the gathered indices are mapped back through the shuffle (`r[0] = shufidx[r[0]]`)."""
+    if fnode.name != "check_results":
+        return []
+    out = []
+    loop = None
+    for s in fnode.body:
+        if isinstance(s, _ast.For) and any(isinstance(c, _ast.Call) and getattr(c.func, "attr", None) == "append" and getattr(c.func.value, "id", None) == "to_change" for c in _ast.walk(s)):
+            loop = s
+            break
+    if loop is None:
+        return [("check_results reports failed functions by appending to `to_change` inside a loop", False, fnode.lineno)]
+    lv = loop.target.id if isinstance(loop.target, _ast.Name) else None
+    it = _ast.unparse(loop.iter)
+    out.append(("line %d: the loop runs over the rank's own functions (`%s`)" % (loop.lineno, it), it == "range(len(all_fun))" and lv is not None, loop.lineno))
+    for c in _ast.walk(loop):
+        if isinstance(c, _ast.Call) and getattr(c.func, "attr", None) == "append" and getattr(c.func.value, "id", None) == "to_change":
+            arg = c.args[0] if len(c.args) == 1 else None
+            ok = isinstance(arg, _ast.List) and len(arg.elts) == 2 and _ast.unparse(arg.elts[0]) in ("%s + imin" % lv, "imin + %s" % lv) and _ast.unparse(arg.elts[1]) == "all_fun[%s]" % lv
+            out.append(("line %d: the record is [local index + imin, the function's string] (`%s`)" % (c.lineno, _ast.unparse(arg) if arg is not None else "?"), bool(ok), c.lineno))
+    # nothing between the offset region and the append rebinds imin
+    rebind = [n.lineno for n in _ast.walk(loop) if isinstance(n, _ast.Name) and isinstance(n.ctx, _ast.Store) and n.id == "imin"]
+    out.append(("imin is not changed inside the loop", not rebind, loop.lineno))
+    back = [n for n in _ast.walk(fnode) if isinstance(n, _ast.Assign) and _ast.unparse(n.targets[0]) == "r[0]" and _ast.unparse(n.value) == "shufidx[r[0]]"]
+    out.append(("the gathered positions of the shuffled list are mapped back to positions of the library (`r[0] = shufidx[r[0]]`)", len(back) == 1, back[0].lineno if back else fnode.lineno))
+    return out
+
+
 # ------------------------------------------------------------ initial_sympify: merging the ranks' expression dictionaries (C13, C02)
 def _isym_dict_region(fnode):
     """the `if save_sympy:` block inside the last `if parallel:` of initial_sympify"""
